@@ -73,7 +73,7 @@ def run_variant(prop, v):
             "ctx = R.Ctx(%r, 'quick', None, 0)\n"
             "try:\n"
             "    ctx.program = F.load_program(%r, %r)\n"
-            "    mod.run(ctx)\n"
+            "    R.run_rules(mod, ctx)\n"
             "except F.FactsError as e:\n"
             "    print(json.dumps({'error': 'facts: ' + str(e)[-1500:]})); sys.exit(0)\n"
             "except F.AnchorMissing as e:\n"
